@@ -492,9 +492,9 @@ CHECKS = {
                  "not-woken-by-same-locker-release-under-noloop, stranded-behind-failed-attempt, missed-wakeup). "
                  "non-trivial = at least one holder and at least one attempt was refused because a key was held; distinct = distinct event-log hash"),
         "parts": [
-            {"module": "rueidislock", "scenario": "lock", "quick": 1200, "thorough": 40000, "procs": (1, 1, 2)},
-            {"module": "rueidislock", "scenario": "lock", "variant": "force", "quick": 320, "thorough": 10000, "procs": (1, 1, 2)},
-            {"module": "rueidislock", "scenario": "lock", "variant": "trynext", "quick": 160, "thorough": 6000, "procs": (1, 1, 2)},
+            {"module": "rueidislock", "scenario": "lock", "quick": 900, "thorough": 40000, "procs": (1, 1, 2)},
+            {"module": "rueidislock", "scenario": "lock", "variant": "force", "quick": 240, "thorough": 10000, "procs": (1, 1, 2)},
+            {"module": "rueidislock", "scenario": "lock", "variant": "trynext", "quick": 120, "thorough": 6000, "procs": (1, 1, 2)},
         ],
         "expected_probes": ["acquire-refused-key-held", "waiter-acquired-after-waiting", "extension-executed", "ghost-del-of-live-holder-key",
                             "holder-key-expired", "loss-noticed", "key-overwritten", "fault-fired:stall", "fault-fired:node-restart",
